@@ -262,7 +262,7 @@ PROPS["C16"] = dict(
     design_ref="DESIGN.md section 7 (C16)",
     run_files=["Run/C16Run.v"],
     engines=[dict(cmd=["c16"], corr="Model.Validate.{range_status,put_status,del_status,txn_status,create_status,delete_status} <-> regattaserver.KVServer/TablesServer/ReadonlyTablesServer + table.ActiveTable validators", timeout=900)],
-    level_text="Theorems over all requests (reduced to the features the validators inspect): every documented constraint yields its status class, an accepted request satisfies all of them, and the key/value limits hold on every path that can create a record including operations nested in transactions. The real KVServer + table.ActiveTable (over a simulated Raft host with real state machines) and the tables servers are run on an enumerated grid of field combinations and a malformed stream; status codes are compared with the model, the table content is read back after every rejection, panics are caught and reported; requests with extreme numeric fields run in a child process whose death is reported with the request it announced last; unknown tables with non-UTF-8 or control-character names are unknown tables; on a real storage.Engine, names that only resemble the path of a table ('demo/', './demo', 'x/../demo') are unknown tables too.",
+    level_text="Theorems over all requests (reduced to the features the validators inspect): every documented constraint yields its status class, an accepted request satisfies all of them, and the key/value limits hold on every path that can create a record including operations nested in transactions. The real KVServer + table.ActiveTable (over a simulated Raft host with real state machines) and the tables servers are run on an enumerated grid of field combinations and a malformed stream; status codes are compared with the model, the table content is read back after every rejection, panics are caught and reported; the routing of transactions to the read path (TxnRequest.IsReadonly: only when both branches hold nothing but range reads - theorem and enumerated comparison); requests with extreme numeric fields run in a child process whose death is reported with the request it announced last; unknown tables with non-UTF-8 or control-character names are unknown tables; on a real storage.Engine, names that only resemble the path of a table ('demo/', './demo', 'x/../demo') are unknown tables too.",
     level_note="PARTIAL: 'no request terminates the process' is exercised (enumerated grid + random garbage, panics caught), not proved - a theorem about total Gallina validators says nothing about Go panics. Requests are called on the server objects directly, not through a network listener (gRPC decoding is C18's codec). storage.Engine's table routing is re-implemented in the harness (three lines per method).",
     technique="Coq proof (case analysis of the validator decision functions) + enumerated differential check of the real servers' status codes and effects",
     trusted=["Model/Validate.v hand-written model of the validators in regattaserver/kv.go, tables.go and storage/table/table.go"],
@@ -274,7 +274,7 @@ PROPS["C17"] = dict(
     design_ref="DESIGN.md section 7 (C17)",
     run_files=["Run/C17Run.v"],
     engines=[dict(cmd=["c17"], corr="Model.Auth.{auth_func,intercept,server_config,verify_peer,accepts} <-> cmd.authFunc + auth interceptor wiring (cmd.createAPIServer), security.TLSInfo.ServerConfig", timeout=900)],
-    level_text="Theorems about regatta's decision logic: with a token configured a call passes only with the header '<bearer, any case> <exactly the token>' (every other string, prefix/suffix/case variants included, is refused), services without an override are unaffected, a trusted CA or client-cert-auth makes verified client certificates mandatory, CN/hostname options are exclusive, and acceptance implies a chain to the CA and exactly the allowed CN (resp. hostname validity) on the leaf of the first verified chain. A real API server built by cmd.createAPIServer is called over loopback on every method of the protected services (from the generated descriptors) with 15 header variants, and real TLS handshakes run against TLSInfo.ServerConfig() with harness-minted certificates over all option combinations (incl. a CA that is only in the host's trust store); both compared with the model; endpoints built by createAPIServer for every TLS address scheme (https, unixs) refuse a plaintext client.",
+    level_text="Theorems about regatta's decision logic: with a token configured a call passes only with the header '<bearer, any case> <exactly the token>' (every other string, prefix/suffix/case variants included, is refused), services without an override are unaffected, a trusted CA or client-cert-auth makes verified client certificates mandatory, CN/hostname options are exclusive, and acceptance implies a chain to the CA and exactly the allowed CN (resp. hostname validity) on the leaf of the first verified chain. A real API server built by cmd.createAPIServer is called over loopback on every method of the protected services (from the generated descriptors) with 15 header variants, and real TLS handshakes run against TLSInfo.ServerConfig() with harness-minted certificates over all option combinations (incl. a CA that is only in the host's trust store); both compared with the model; endpoints built by createAPIServer for every TLS address scheme (https, unixs) refuse a plaintext client; which schemes get the TLS configuration (cmd.resolveURL) is a two-line model with its theorem, compared on a list of addresses.",
     level_note="PARTIAL: chain verification and hostname matching are crypto/tls and crypto/x509 (inputs of the modelled decision, observed in real handshakes, not proved); the go-grpc-middleware interceptor is modelled from its source.",
     technique="Coq proof (string-splitting lemma for the bearer header, case analysis of the TLS option decision) + enumerated differential check against a real gRPC server and real TLS handshakes",
     trusted=["Model/Auth.v hand-written model of cmd.authFunc, the auth interceptor and security/tls.go"],
